@@ -26,12 +26,15 @@ TRUSTED = [
 ASSUMPTIONS = [
     "atomicity of request handlers and of each half of a disk job (as for C08); every order of these steps is covered",
     "the md5-derived shmid is injective on the keys in use (model: shmid = key)",
-    "clients follow the protocol of client.py: the writer creates the segment with the granted size after a granted allocate, and nobody else "
-    "creates segments under the store's names (`disciplined`); theorems about bytes assume it, the generators' malformed stream violates it on purpose",
-    "C09_*_partial: no page-out job touches a segment created for a later allocation of the same key (open finding readd-during-pageout, shared with C08)",
-    "C09_no_read_before_close_partial: no writer is slower than STALE_CREATE (15 min) under memory pressure (finding stale-writer-readable)",
-    "liveness is stated as: the pageout lock is held only while a page-out job is pending whose callback releases it, a waiting request with an "
-    "evictable candidate issues a job, and completing the jobs credits the space; fairness of the thread pool is assumed, not modelled",
+    "segments are created by clients (SharedMemory(create=True), fails if the name exists) and by page-in only; nobody scribbles into an existing segment "
+    "(client.py hands out read-only views); the writer's bytes are what its segment holds when its close_callback is accepted (ghost field d_written)",
+    "C09_bytes_preserved_partial assumes `clean`: (a) no page-out job issued for a Dataset object that was purged meanwhile finds a segment under its name or "
+    "completes successfully (open finding readd-during-pageout, shared with C08; witness C09_bytes_preserved_refuted), (b) a writer closes a segment of the granted size",
+    "C09_no_read_before_close_partial assumes `unhurried`: during every allocate/get no dataset has been in status created for longer than STALE_CREATE "
+    "(15 min); otherwise the store pages the unfinished dataset out and later hands it to readers (finding stale-writer-readable; witness C09_no_read_before_close_refuted)",
+    "reachability is proved as: the pageout lock is held exactly while a page-out job is pending (every history, no side condition), a waiting request with an "
+    "evictable candidate and a free lock issues a page-out, a successful page-out credits its size (C08); that the thread pool eventually runs every "
+    "job (fairness) is assumed, and 'eventually granted' itself is checked on the implementation by the patient-client epilogue, not proved",
 ]
 
 SIG_READD = "readd-during-pageout"
@@ -62,6 +65,11 @@ class Watch:
         if k in ("add", "get"):
             self.tmax = max(self.tmax, op[3] if k == "add" else op[2])
         now = self.tmax
+        # io of a page-out job whose dataset object is gone, finding a segment: the C09 face of the readd finding
+        if k == "io" and ob[1]:
+            j = d.board.jobs[op[1]]
+            if j.kind == "out" and j.ok and (m.datasets.get(d.key_for(j.shmid)) is not d.job_obj.get(op[1]) or d.job_obj.get(op[1]) is None):
+                d.readd_io = True
         # ---- bookkeeping + checks per request
         if k == "add" and ob[2] == "" and ob[1] is not None:
             self.gen[op[1]] = {"size": op[2], "created": op[3], "closed": None, "was_closed": False, "reads": [], "readers": {}, "delayed": False,
@@ -171,11 +179,6 @@ class Watch:
                 if ds is None or ds.status.name != "in_memory" or d.shmid(key) not in d.reg.segs:
                     self.flag(d, "unlinked-under-fresh-reader", f"{key} is held by a reader since {fresh} (now {now}) but is {None if ds is None else ds.status.name}, "
                               f"segment present: {d.shmid(key) in d.reg.segs}", i, op)
-        # io of a page-out job whose dataset object is gone, finding a segment: the C09 face of the readd finding
-        if k == "io" and ob[1]:
-            j = d.board.jobs[op[1]]
-            if j.kind == "out" and j.ok and (m.datasets.get(d.key_for(j.shmid)) is not d.job_obj.get(op[1]) or d.job_obj.get(op[1]) is None):
-                d.readd_io = True
 
     prev_free = None
 
@@ -382,16 +385,16 @@ def run(ctx, res):
                 "while a fresh reader held a dataset; distinct = distinct (capacity, op list)")
     streams = [("corpus", c, o) for c, o in corpus()]
     rng = ctx.sub_rng("readers")
-    for _ in range(ctx.n(700, 12000)):
+    for _ in range(ctx.n(600, 12000)):
         streams.append(("readers",) + reader_history(rng))
     rng = ctx.sub_rng("pressure")
-    for _ in range(ctx.n(700, 12000)):
+    for _ in range(ctx.n(600, 12000)):
         streams.append(("pressure",) + S.pressure_history(rng))
     rng = ctx.sub_rng("random")
-    for _ in range(ctx.n(400, 7000)):
+    for _ in range(ctx.n(300, 7000)):
         streams.append(("random",) + S.gen_history(rng))
     rng = ctx.sub_rng("malformed")
-    for _ in range(ctx.n(150, 2500)):
+    for _ in range(ctx.n(120, 2500)):
         streams.append(("malformed",) + S.gen_history(rng, malformed=True))
     terms, metas = [], []
     erng = ctx.sub_rng("epilogue")
